@@ -210,6 +210,149 @@ def rule_S3(run: Run, prog: Program) -> int:
     return n
 
 
+# ---------------------------------------------------------------------------------------------- S4
+RAW_ARRAY_ATTRS = {"array", "normalized_array"}
+SCALAR_PREDICATES = {"is_numerical_scalar", "isscalar"}
+
+
+def _terminates(stmts: list[ast.stmt]) -> bool:
+    return bool(stmts) and isinstance(stmts[-1], (ast.Return, ast.Raise, ast.Continue, ast.Break))
+
+
+def rule_S4(run: Run, prog: Program) -> int:
+    """Raw ndarray arithmetic never receives a Tensor operand."""
+    run.rule(
+        "E2.S4",
+        "in `<x>.array OP p` the other operand p is never a Tensor: a parameter annotated with a tensor class is unwrapped "
+        "(p = p.array), excluded by an isinstance/scalar guard, or the operation is left to the tensor operators. (ndarray OP "
+        "Tensor is handed by numpy to the TENSOR's reflected operator through __array_ufunc__, so the result would be a Tensor "
+        "typed by the other operand instead of an array for the receiver's index types)",
+    )
+    tensor = prog.cls("Tensor")
+    n = 0
+    MAY, NO = "may be a Tensor", "not a Tensor"
+
+    for fn in prog.package_functions():
+        tracked: dict[str, str] = {}
+        for prm in fn.params():
+            if prm.annotation is None:
+                continue
+            ks = prog.annotation_classes(fn.module, prm.annotation)
+            if ks and any(prog.is_subclass(k, tensor) for k in ks):
+                tracked[prm.arg] = MAY
+        if not tracked:
+            continue
+
+        def narrow(test: ast.AST, st: dict[str, str]) -> tuple[dict[str, str], dict[str, str]]:
+            t, f = dict(st), dict(st)
+            if isinstance(test, ast.UnaryOp) and isinstance(test.op, ast.Not):
+                a, b = narrow(test.operand, st)
+                return b, a
+            if isinstance(test, ast.BoolOp) and isinstance(test.op, ast.And):
+                for v in test.values:
+                    t, _ = narrow(v, t)
+                return t, f
+            if isinstance(test, ast.BoolOp) and isinstance(test.op, ast.Or):
+                for v in test.values:
+                    _, f = narrow(v, f)
+                return t, f
+            if isinstance(test, ast.Call) and test.args and isinstance(test.args[0], ast.Name) and test.args[0].id in st:
+                name = test.args[0].id
+                fx = test.func
+                fname = fx.attr if isinstance(fx, ast.Attribute) else getattr(fx, "id", "")
+                if fname in SCALAR_PREDICATES:
+                    t[name] = NO
+                elif fname == "isinstance" and len(test.args) == 2:
+                    ks = [prog.classes.get(prog.resolve_expr_name(fn.module, e, fn) or "") for e in
+                          (test.args[1].elts if isinstance(test.args[1], ast.Tuple) else [test.args[1]])]
+                    if ks and all(k is not None and prog.is_subclass(k, tensor) for k in ks):
+                        if any(k is tensor for k in ks):
+                            f[name] = NO
+                    elif ks and all(k is None for k in ks):
+                        t[name] = NO  # isinstance(p, (int, float, np.ndarray ...)): not one of the package's classes
+            return t, f
+
+        found: list[tuple[ast.BinOp, str, str]] = []
+
+        def scan(e: ast.AST, st: dict[str, str]) -> None:
+            for x in ast.walk(e):
+                if isinstance(x, ast.BinOp) and isinstance(x.op, (ast.Add, ast.Sub, ast.Mult, ast.Div, ast.FloorDiv, ast.Mod, ast.Pow)):
+                    for a, b in ((x.left, x.right), (x.right, x.left)):
+                        if isinstance(a, ast.Attribute) and a.attr in RAW_ARRAY_ATTRS and isinstance(b, ast.Name) and b.id in st:
+                            found.append((x, b.id, st[b.id]))
+
+        def block(stmts: list[ast.stmt], st: dict[str, str]) -> dict[str, str] | None:
+            """state after the block, None when every path through it leaves the function / loop"""
+            for s_ in stmts:
+                if isinstance(s_, ast.If):
+                    scan(s_.test, st)
+                    t, f = narrow(s_.test, st)
+                    a = block(s_.body, t)
+                    b = block(s_.orelse, f)
+                    if a is None and b is None:
+                        return None
+                    if a is None:
+                        st = b
+                    elif b is None:
+                        st = a
+                    else:
+                        st = {k: (MAY if MAY in (a.get(k), b.get(k)) else NO) for k in st}
+                    continue
+                if isinstance(s_, (ast.Return, ast.Raise)):
+                    for ch in ast.iter_child_nodes(s_):
+                        scan(ch, st)
+                    return None
+                if isinstance(s_, (ast.Assign, ast.AnnAssign, ast.AugAssign)):
+                    val = s_.value
+                    if val is not None:
+                        scan(val, st)
+                    tg = s_.targets if isinstance(s_, ast.Assign) else [s_.target]
+                    for t_ in tg:
+                        if isinstance(t_, ast.Name) and t_.id in st and not isinstance(s_, ast.AugAssign):
+                            k = None
+                            if isinstance(val, ast.Call):
+                                fx = val.func
+                                if isinstance(fx, ast.Attribute) and fx.attr in ("from_tensor", "from_array"):
+                                    fx = fx.value
+                                k = prog.classes.get(prog.resolve_expr_name(fn.module, fx, fn) or "")
+                            st = dict(st)
+                            st[t_.id] = MAY if (k is not None and prog.is_subclass(k, tensor)) else NO
+                    continue
+                if isinstance(s_, (ast.For, ast.While, ast.With, ast.Try)):
+                    for ch in ast.iter_child_nodes(s_):
+                        if isinstance(ch, ast.expr):
+                            scan(ch, st)
+                    inner = list(getattr(s_, "body", []))
+                    r = block(inner, dict(st))
+                    for extra in (getattr(s_, "orelse", []), getattr(s_, "finalbody", [])):
+                        if extra:
+                            block(list(extra), dict(st))
+                    for h in getattr(s_, "handlers", []):
+                        block(h.body, dict(st))
+                    if r is not None:
+                        st = {k: (MAY if MAY in (st.get(k), r.get(k)) else NO) for k in st}
+                    continue
+                if isinstance(s_, (ast.FunctionDef, ast.AsyncFunctionDef, ast.ClassDef)):
+                    continue
+                for ch in ast.iter_child_nodes(s_):
+                    if isinstance(ch, ast.expr):
+                        scan(ch, st)
+            return st
+
+        block(fn.node.body, tracked)
+        for x, name, state in found:
+            n += 1
+            loc = f"{fn.module.rel}:{x.lineno}"
+            if state == MAY:
+                run.add("E2.S4", fn.short, ast.unparse(x)[:70], VIOLATION,
+                        f"`{name}` may still be a Tensor here (annotated `{ast.unparse(next(p for p in fn.params() if p.arg == name).annotation)[:40]}`, "
+                        f"not unwrapped or excluded on this path): numpy hands ndarray OP Tensor to the Tensor's reflected operator, so the "
+                        f"value is a Tensor carrying the index types of `{name}` rather than an array combined under the receiver's index types", loc)
+            else:
+                run.add("E2.S4", fn.short, ast.unparse(x)[:70], PROVEN, f"`{name}` is unwrapped / guarded to a non-Tensor on every path to this operation", loc)
+    return n
+
+
 # ---------------------------------------------------------------------------------------------- E3
 UFUNC_ORACLE = {
     "add": "add", "subtract": "sub", "multiply": "mul", "matmul": "matmul", "divide": "truediv",
